@@ -4,6 +4,15 @@ import json, os, subprocess
 VERIF = os.path.dirname(os.path.dirname(os.path.abspath(__file__)))
 
 CLAIMED = {
+    "C02": ("DESIGN.md §4 C02",
+            "Which handler runs is stateful along the message (the path token points into a buffer that is rewritten in place) and across messages; seeded command "
+            "tables from the supported pattern grammar (and the shipped tables) with 1..6 messages of 1..6 units (entry spellings, relative tails, undefined headers) "
+            "are delivered under any segmentation, after broken or overrun predecessors, with the -113 text allocation failing. An independent composer and a "
+            "pattern-language acceptor predict, per unit delimited by hook H2, the single entry that must run (tag, SCPI_IsCmd, effective header) or the single -113 "
+            "whose queued text contains the header. Exploration level.",
+            "Tables are restricted to the class C03 describes (keywords of a pattern pairwise distinct in short and long form); numeric-suffix values are C03's subject "
+            "and not asserted. Messages longer than the input buffer are skipped.",
+            "deterministic simulation: seeded tables/messages/histories with allocation faults against an independent composer and acceptor"),
     "C05": ("DESIGN.md §4 C05, Appendix A.1",
             "Per-unit accounting state (error flag, parameter cursor) and the per-call return value are exercised by seeded input calls of 1..3 messages of 1..4 units; "
             "every unit pairs a seeded handler signature (15 readers incl. arrays, mandatory/optional, four return policies incl. silent failure and errors pushed from "
